@@ -14,8 +14,8 @@
 using namespace vf;
 
 static const int N = 1024;
-enum { S_ENC, S_GATE, S_BOOT, S_EXPORT_CT, S_EXPORT_CLOUD, S_EXPORT_SECRET, S_IMPORT_CLOUD, S_IMPORT_SECRET, S_DELETE_CT, S_DELETE_IMPORTED, S_THREAD, S_PARAMS_IO, S_ARRAY, S_KEYSWITCH, S_DECRYPT, S_COUNT };
-static const char *SNAME[] = {"enc", "gate", "bootstrap", "export-ct", "export-cloud", "export-secret", "import-cloud", "import-secret", "delete-ct", "delete-imported", "thread", "params-io", "array", "keyswitch", "decrypt"};
+enum { S_ENC, S_GATE, S_BOOT, S_EXPORT_CT, S_EXPORT_CLOUD, S_EXPORT_SECRET, S_IMPORT_CLOUD, S_IMPORT_SECRET, S_DELETE_CT, S_DELETE_IMPORTED, S_THREAD, S_PARAMS_IO, S_ARRAY, S_KEYSWITCH, S_DECRYPT, S_KEY2, S_LOWLEVEL, S_COUNT };
+static const char *SNAME[] = {"enc", "gate", "bootstrap", "export-ct", "export-cloud", "export-secret", "import-cloud", "import-secret", "delete-ct", "delete-imported", "thread", "params-io", "array", "keyswitch", "decrypt", "second-keyset", "lowlevel-bk-lifecycle"};
 static std::vector<std::string> g_digests;
 
 static std::string bytes_ct(const LweSample *s, const LweParams *P, bool file) {
@@ -112,6 +112,36 @@ static std::string run_case(const J &c, std::string &sig) {
                 SplitMix rr((uint64_t)d); for (int i = 0; i < ex->n; i++) x->a[i] = rr.i32(); x->b = rr.i32(); x->current_variance = 0;
                 lweKeySwitch(r, ck->bk->ks, x); mixin(r->a, (size_t)n * 4); mixin(&r->b, 4); delete_LweSample(x); delete_LweSample(r); break; }
             case S_DECRYPT: { int bit = bootsSymDecrypt(pick(b), sk); mixin(&bit, 4); break; }
+            case S_KEY2: { // a second key set with another input dimension, used alternately with the first one on the same thread, then released
+                static const int NS[] = {1, 5, 12, 40, 77, 300, 640};
+                int n2 = NS[a % 7];
+                if (n2 == n) n2 += 3;
+                LweParams *lp2 = new_LweParams(n2, 1e-9, 0.01); TLweParams *tp2 = new_TLweParams(N, 1 + (int)(a & 1), 1e-9, 0.01); TGswParams *gp2 = new_TGswParams(2, 8, tp2);
+                TFheGateBootstrappingParameterSet *p2 = new TFheGateBootstrappingParameterSet(1 + (int)(b % 3), 1 + (int)(b % 2), lp2, gp2);
+                TFheGateBootstrappingSecretKeySet *sk2 = new_random_gate_bootstrapping_secret_keyset(p2);
+                LweSample *w2 = new_gate_bootstrapping_ciphertext_array(3, p2);
+                bootsSymEncrypt(w2, 1, sk2); bootsSymEncrypt(w2 + 1, 0, sk2);
+                LweSample *r1 = new_gate_bootstrapping_ciphertext(params);
+                for (int q = 0; q < 2; q++) {
+                    gate_apply((int)((d + q) % 11), w2 + 2, w2, w2 + 1, w2, 0, &sk2->cloud); mixin(w2[2].a, (size_t)n2 * 4);
+                    gate_apply((int)((d + q + 3) % 11), r1, pick(b), pick(b >> 8), pick(b >> 16), 0, ck); mixin(r1->a, (size_t)n * 4);
+                }
+                delete_gate_bootstrapping_ciphertext(r1); delete_gate_bootstrapping_ciphertext_array(3, w2);
+                delete_gate_bootstrapping_secret_keyset(sk2); delete_gate_bootstrapping_parameters(p2); delete_TGswParams(gp2); delete_TLweParams(tp2); delete_LweParams(lp2);
+                break; }
+            case S_LOWLEVEL: { // low-level key objects released in either order: the FFT key owns its own key-switching key, so it stays usable after the coefficient-domain key is deleted (and vice versa)
+                int n3 = 2 + (int)(a % 9);
+                LweParams *lp3 = new_LweParams(n3, 1e-9, 0.01); TLweParams *tp3 = new_TLweParams(N, 1, 1e-9, 0.01); TGswParams *gp3 = new_TGswParams(2, 8, tp3);
+                LweKey *k3 = new_LweKey(lp3); lweKeyGen(k3); TGswKey *g3 = new_TGswKey(gp3); tGswKeyGen(g3);
+                LweBootstrappingKey *bk3 = new_LweBootstrappingKey(2, 2, lp3, gp3);
+                tfhe_createLweBootstrappingKey(bk3, k3, g3);
+                LweBootstrappingKeyFFT *f3 = new_LweBootstrappingKeyFFT(bk3);
+                LweSample *x = new_LweSample(lp3), *r = new_LweSample(lp3);
+                lweSymEncrypt(x, 1 << 29, 1e-9, k3);
+                if (b & 1) { delete_LweBootstrappingKey(bk3); tfhe_bootstrap_FFT(r, f3, 1 << 29, x); mixin(r->a, (size_t)n3 * 4); mixin(&r->b, 4); delete_LweBootstrappingKeyFFT(f3); }
+                else { delete_LweBootstrappingKeyFFT(f3); tfhe_bootstrap(r, bk3, 1 << 29, x); mixin(&r->b, 4); delete_LweBootstrappingKey(bk3); }
+                delete_LweSample(x); delete_LweSample(r); delete_TGswKey(g3); delete_LweKey(k3); delete_TGswParams(gp3); delete_TLweParams(tp3); delete_LweParams(lp3);
+                break; }
         }
     }
     // --- release everything that is still alive, in the generated order
@@ -147,7 +177,7 @@ int main(int argc, char **argv) {
         const J &cf = c["cfg"];
         bool nondefault = !cf["lambda"].i() && (cf["n"].i() < 8 || cf["n"].i() > N || cf["k"].i() == 2 || cf["l"].i() * cf["Bgbit"].i() >= 30 || cf["Bgbit"].i() <= 2);
         bool special = false;
-        for (auto &s : c["steps"].av) { int op = (int)(s[0].i() % S_COUNT); if (op == S_THREAD || op == S_IMPORT_CLOUD || op == S_IMPORT_SECRET) special = true; }
+        for (auto &s : c["steps"].av) { int op = (int)(s[0].i() % S_COUNT); if (op == S_THREAD || op == S_IMPORT_CLOUD || op == S_IMPORT_SECRET || op == S_KEY2 || op == S_LOWLEVEL) special = true; }
         return nondefault || special;
     };
     H.classify = [](const J &c) { const J &cf = c["cfg"]; return cf["lambda"].i() ? std::string("default") + std::to_string(cf["lambda"].i()) : std::string("n") + (cf["n"].i() < 8 ? "<8" : cf["n"].i() > N ? ">N" : "mid") + "_k" + std::to_string(cf["k"].i()); };
@@ -169,7 +199,7 @@ int main(int argc, char **argv) {
         }
         c.set("cfg", cf).set("seed", *genSeed()).set("delorder", *rng<int>(0, 3));
         auto stepgen = rc::gen::map(rc::gen::tuple(rc::gen::weightedElement<int>({{3, S_ENC}, {6, S_GATE}, {2, S_BOOT}, {2, S_EXPORT_CT}, {2, S_EXPORT_CLOUD}, {1, S_EXPORT_SECRET}, {2, S_IMPORT_CLOUD}, {1, S_IMPORT_SECRET},
-                                                                              {2, S_DELETE_CT}, {1, S_DELETE_IMPORTED}, {2, S_THREAD}, {1, S_PARAMS_IO}, {1, S_ARRAY}, {1, S_KEYSWITCH}, {1, S_DECRYPT}}),
+                                                                              {2, S_DELETE_CT}, {1, S_DELETE_IMPORTED}, {2, S_THREAD}, {1, S_PARAMS_IO}, {1, S_ARRAY}, {1, S_KEYSWITCH}, {1, S_DECRYPT}, {2, S_KEY2}, {1, S_LOWLEVEL}}),
                                                    rng<int>(0, 1000), rng<int>(0, 1 << 24), rng<int>(0, 1 << 24)),
                                     [](std::tuple<int, int, int, int> t) { return std::vector<int64_t>{std::get<0>(t), std::get<1>(t), std::get<2>(t), std::get<3>(t)}; });
         auto v = *rc::gen::resize(*rng<int>(2, maxsteps), rc::gen::container<std::vector<std::vector<int64_t>>>(stepgen));
